@@ -135,7 +135,13 @@ def apply_mut(fst, tree, m):
             node.value = node.value + (1 if isinstance(node.value, int) else 'x')
         elif kind == 'op':
             node.op = ast.Sub() if not isinstance(node.op, ast.Sub) else ast.Mult()
-        return {tuple(path)}
+        # an earlier dup-expr / dup may have put the same object into several places: an in-place change touches all of them
+        touched = {tuple(path)}
+        if kind in ('rename', 'const', 'op'):
+            for p2, n2 in O.iter_nodes(tree):
+                if n2 is node:
+                    touched.add(tuple(p2))
+        return touched
     path, field = m[1], m[2]
     lst = getattr(O.get_path(tree, path), field)
     if kind == 'ins-stmt':
@@ -242,6 +248,8 @@ def _run_history(fst, pi, hist, res, second, tag):
         p = (('body', i),)
         if any(t[:1] == p or t == (('body', '*'),) for t in touched):
             continue
+        if i >= len(want.body) or O.dump(want.body[i]) != O.dump(st):
+            continue  # changed after all: an object shared between statements (dup-expr / dup) was mutated in place
         a = st.decorator_list[0].lineno if getattr(st, 'decorator_list', None) else st.lineno
         alone = not any(o is not st and (o.lineno <= st.end_lineno and o.end_lineno >= a) for o in marked.body)
         if alone:  # full lines, trailing comment included
